@@ -101,8 +101,10 @@ def call_pairing(ctx):
 
 # --------------------------------------------------------------------------- binding order
 @rule("C12.binding-order", props=["C12", "C18"], min_instances=4, mutants=[
-    ("keyword arguments in reverse name order", ("multivector", "args = [v for k, v in sorted(kwargs.items(), key=lambda x: x[0])]", "args = [v for k, v in sorted(kwargs.items(), key=lambda x: x[0], reverse=True)]")),
-    ("keyword arguments in call order", ("multivector", "args = [v for k, v in sorted(kwargs.items(), key=lambda x: x[0])]", "args = [v for k, v in kwargs.items()]")),
+    ("keyword arguments in reverse name order", ("multivector", "            args = [kwargs[name] for name in names]", "            args = [kwargs[name] for name in reversed(names)]")),
+    ("keyword arguments in call order", ("multivector", "            args = [kwargs[name] for name in names]", "            args = list(kwargs.values())")),
+    ("keyword values sorted by keyword, the names then thrown away (F29)", ("multivector", "            if sorted(kwargs) != names:\n                raise TypeError(f'Expected values for the symbols {names}, but got {sorted(kwargs)}.')\n            args = [kwargs[name] for name in names]", "            args = [v for k, v in sorted(kwargs.items(), key=lambda x: x[0])]")),
+    ("only the number of keywords is checked", ("multivector", "            if sorted(kwargs) != names:\n                raise TypeError(f'Expected values for the symbols {names}, but got {sorted(kwargs)}.')\n            args = [kwargs[name] for name in names]", "            if len(kwargs) != len(names):\n                raise TypeError('wrong number of values')\n            args = [kwargs[name] for name in sorted(kwargs)]")),
     ("free symbols unsorted", ("codegen", "args={'x': sorted(mv.free_symbols, key=lambda x: x.name)},", "args={'x': list(mv.free_symbols)},")),
     ("expressions listed in another order than the keys", ("codegen", "        exprs=list(mv.values()),\n        funcname=f'custom_{mv.type_number}',", "        exprs=sorted(mv.values(), key=str),\n        funcname=f'custom_{mv.type_number}',")),
 ])
@@ -144,21 +146,34 @@ def binding_order(ctx):
     # MultiVector.__call__
     q = "multivector.MultiVector.__call__"
     fn = ctx.func(q)
-    for label, args, kwargs, want in (
-            ("positional", [10, 20, 30], {}, [10, 20, 30]),
-            ("keywords out of order", [], {"x2": 2, "alpha": 1, "x10": 3, "x1": 4, "X": 0, "beta": 9}, [0, 1, 9, 4, 3, 2]),
-            ("keywords in order", [], {"alpha": 1, "beta": 5}, [1, 5])):
+    all6 = ("x10", "alpha", "x2", "beta", "x1", "X")
+    for label, free, args, kwargs, want in (
+            ("positional", ("x10", "alpha", "x2"), [10, 20, 30], {}, [10, 20, 30]),
+            ("keywords out of order", all6, [], {"x2": 2, "alpha": 1, "x10": 3, "x1": 4, "X": 0, "beta": 9}, [0, 1, 9, 4, 3, 2]),
+            ("keywords in order", ("beta", "alpha"), [], {"alpha": 1, "beta": 5}, [1, 5]),
+            # a keyword that names no free symbol must never be given to another symbol: raise, or leave it out
+            ("a keyword that names no free symbol", ("b", "a"), [], {"a": 1, "c": 2}, None),
+            ("a keyword that names no free symbol, sorting before the others", ("b", "c"), [], {"a": 1, "c": 2}, None)):
         c = f"{q}#{label}"
         got = {}
         func = Obj("function", call=lambda a: (got.update(args=list(a)), [Val("R0"), Val("R1")])[1])
         mvx = mv_obj(rep_algebra(3), (4, 1), [Val("E3"), Val("E1")])
-        mvx.attrs["free_symbols"] = list(syms)
+        mvx.attrs["free_symbols"] = [Obj("symbol", {"name": n, "fmt": n}) for n in free]     # arbitrary (set) order
         mvx.attrs["_callable"] = ((2, 6), func)
         it = make_interp(repo)
         try:
             out = it.run(q, [mvx] + list(args), dict(kwargs))
         except NoValue as exc:
             raise Unknown(c, str(exc), fn)
+        if want is None:
+            names = sorted(free)
+            misbound = [(k, n) for k, v in kwargs.items() for n, g in zip(names, got.get("args") or []) if g == v and k != n]
+            if out[0] != "raise" and misbound:
+                ctx.violation(c, f"free symbols {names}, call with {kwargs}: the lambdified function receives {got.get('args')}, so the value "
+                                 f"given as `{misbound[0][0]}` is substituted for the symbol `{misbound[0][1]}` and no error is raised", fn)
+            else:
+                ctx.ok(c, fn, outcome="raises " + str(out[1]) if out[0] == "raise" else f"receives {got.get('args')}")
+            continue
         if out[0] == "raise":
             ctx.violation(c, f"raises {out[1]}", fn)
         elif got.get("args") != want:
